@@ -9,13 +9,16 @@
   files — and compares every answer with the views of that set. Log rolls, compactions
   and reopen must not change any answer, so they do not touch the checker's world.
   A crash happens while the last mutating operation was in flight (everything before it
-  was synced): afterwards the index must look as if that operation had happened entirely
-  or not at all; the checker carries both candidates and drops the ones an answer refutes.
+  was synced): afterwards the index must look as if that operation had not started, or had
+  stopped after any of the series it drops (a measurement drop is a sequence of series
+  drops); the checker carries every such candidate and judges a case by the candidate that
+  explains all its answers best.
 
-  Three grades per answer: `exact` (what the property demands); `stale` — a tag-key or
-  tag-value LISTING that contains everything it must plus entries no live series has;
-  `wrong` — anything else. `holdsOn` demands `exact` everywhere; `holdsWeakly` tolerates
-  `stale` listings (the known behaviour recorded in findings.d/C14.json).
+  Grades per answer: `exact` (what the property demands); `stale` — a tag-key or tag-value
+  LISTING that contains everything it must plus entries no live series has; `phantom` — a
+  series-id set or the measurement names contain everything they must plus more; `missing` —
+  something a live series requires is absent (or the call failed). `holdsOn` demands `exact`
+  everywhere; `holdsWeakly` tolerates `stale` listings (findings.d/C14.json).
 -/
 import Influx.Proto
 import Influx.Model.TSITypes
@@ -41,14 +44,26 @@ def lookupTag (tags : Tags) (k : String) : Option String :=
 
 def World.drop (w : World) (p : Series → Bool) : World := { live := w.live.filter (fun s => !p s) }
 
-/-- effect of a mutating operation on the live set (`none`: not a mutating operation). -/
-def apply (w : World) : Op → Option World
+def insertById (s : Series) : List Series → List Series
+  | [] => [s]
+  | t :: rest => if s.id ≤ t.id then s :: t :: rest else t :: insertById s rest
+
+/-- the successive live sets while a mutating operation runs, the last one being its result
+    (`none`: not a mutating operation). Dropping a measurement drops its series one at a time,
+    in ascending id order (the order of the harness's flow); everything else is one step. -/
+def stages (w : World) : Op → Option (List World)
   | .create id _ name tags =>
-    some (if w.live.any (·.id = id) then w else { live := ⟨id, name, tags⟩ :: w.live })
-  | .dropSeries id => some (w.drop (·.id = id))
-  | .dropSeriesIndexOnly id => some (w.drop (·.id = id))
-  | .dropMeasurement name => some (w.drop (·.name = name))
-  | .dropMeasurementIndexOnly name => some (w.drop (·.name = name))
+    some [if w.live.any (·.id = id) then w else { live := ⟨id, name, tags⟩ :: w.live }]
+  | .dropSeries id => some [w.drop (·.id = id)]
+  | .dropSeriesIndexOnly id => some [w.drop (·.id = id)]
+  | .dropMeasurement name =>
+    let victims := (w.live.filter (·.name = name)).foldr insertById []
+    some ((victims.foldl (fun (acc : World × List World) v =>
+      let w' := acc.1.drop (·.id = v.id); (w', acc.2 ++ [w'])) (w, [w])).2)
+  | .dropMeasurementIndexOnly name =>
+    let victims := (w.live.filter (·.name = name)).foldr insertById []
+    some ((victims.foldl (fun (acc : World × List World) v =>
+      let w' := acc.1.drop (·.id = v.id); (w', acc.2 ++ [w'])) (w, [w])).2)
   | _ => none
 
 inductive Expect
@@ -68,8 +83,11 @@ def expected (w : World) : Op → Option Expect
     some (.ids ((w.live.filter (fun s => s.name = name ∧ lookupTag s.tags key = some value)).map (·.id)))
   | _ => none
 
-inductive Grade | exact | stale | wrong
+inductive Grade | exact | stale | phantom | missing
 deriving DecidableEq, Repr
+
+def Grade.rank : Grade → Nat
+  | .exact => 0 | .stale => 1 | .phantom => 2 | .missing => 3
 
 def subset [BEq α] (a b : List α) : Bool := a.all (fun x => b.contains x)
 
@@ -82,61 +100,57 @@ def isTagListing : Op → Bool
 def grade (w : World) (op : Op) (o : Obs) : Grade :=
   match expected w op, o with
   | some (.names e), .names l =>
-    if subset e l && subset l e then .exact
-    else if isTagListing op && subset e l then .stale
-    else .wrong
-  | some (.ids e), .ids l => if subset e l && subset l e then .exact else .wrong
-  | some _, _ => .wrong
+    if !subset e l then .missing
+    else if subset l e then .exact
+    else if isTagListing op then .stale
+    else .phantom
+  | some (.ids e), .ids l =>
+    if !subset e l then .missing else if subset l e then .exact else .phantom
+  | some _, _ => .missing
   | none, _ => .exact
 
-def Grade.worse : Grade → Grade → Grade
-  | .wrong, _ => .wrong
-  | _, .wrong => .wrong
-  | .stale, _ => .stale
-  | _, .stale => .stale
-  | .exact, .exact => .exact
+def Grade.worse (a b : Grade) : Grade := if a.rank ≥ b.rank then a else b
 
-/-- best grade an answer gets among the candidate worlds. -/
-def bestGrade (cands : List World) (op : Op) (o : Obs) : Grade :=
-  if cands.any (fun w => grade w op o = .exact) then .exact
-  else if cands.any (fun w => grade w op o = .stale) then .stale
-  else .wrong
+/-- one candidate explanation of the answers so far: the live set, the live sets the last
+    mutating operation went through (a crash may have stopped it at any of them, or before
+    it: the first element), and the worst grade this candidate has given. -/
+structure Cand where
+  w : World := {}
+  during : List World := [{}]
+  worst : Grade := .exact
 
-/-- the checker's state: candidate worlds, each with the world before the last mutating
-    operation (for a crash). -/
 structure Cands where
-  ws : List (World × World) := [({}, {})]
+  ws : List Cand := [{}]
 
 def isQuery (op : Op) : Bool := (expected {} op).isSome
 
-/-- one step: new candidates and the grade of the answer. -/
-def stepCheck (c : Cands) (op : Op) (o : Obs) : Cands × Grade :=
+/-- one step of the checker. -/
+def stepCheck (c : Cands) (op : Op) (o : Obs) : Cands :=
   if isQuery op then
-    let g := bestGrade (c.ws.map (·.1)) op o
-    -- keep the candidates that explain the answer at the best grade reached
-    let keep := c.ws.filter (fun w => grade w.1 op o = g)
-    ({ ws := if keep.isEmpty then c.ws else keep }, g)
+    { ws := c.ws.map (fun k => { k with worst := k.worst.worse (grade k.w op o) }) }
   else
     match op, o with
     | .crash _ _ _, .ok =>
-      -- the in-flight operation happened entirely, or not at all
-      ({ ws := c.ws.flatMap (fun w => [(w.1, w.1), (w.2, w.2)]) }, .exact)
+      -- the in-flight operation stopped before it, or at any of its stages
+      { ws := c.ws.flatMap (fun k => k.during.map (fun w => { w := w, during := [w], worst := k.worst })) }
     | _, .ok =>
-      ({ ws := c.ws.map (fun w => match apply w.1 op with
-          | some w' => (w', w.1)
-          | none => w) }, .exact)
-    | _, _ => (c, .exact)     -- refused / failed operations change nothing
+      { ws := c.ws.map (fun k => match stages k.w op with
+          | some ws => { k with w := ws.getLastD k.w, during := k.w :: ws }
+          | none => k) }
+    | _, _ => c     -- refused / failed operations change nothing
 
-def gradeFrom : Cands → List (Op × Obs) → Grade
-  | _, [] => .exact
-  | c, (op, o) :: rest =>
-    let (c', g) := stepCheck c op o
-    g.worse (gradeFrom c' rest)
+def finalCands : Cands → List (Op × Obs) → Cands
+  | c, [] => c
+  | c, (op, o) :: rest => finalCands (stepCheck c op o) rest
+
+/-- the grade of a case: that of the candidate that explains it best. -/
+def gradeOf (tr : List (Op × Obs)) : Grade :=
+  (finalCands {} tr).ws.foldl (fun g k => if k.worst.rank < g.rank then k.worst else g) .missing
 
 /-- the property's statement on one case. -/
-def holdsOn (tr : List (Op × Obs)) : Bool := gradeFrom {} tr = .exact
+def holdsOn (tr : List (Op × Obs)) : Bool := gradeOf tr = .exact
 
 /-- the statement with stale tag-key / tag-value listings tolerated. -/
-def holdsWeakly (tr : List (Op × Obs)) : Bool := gradeFrom {} tr ≠ .wrong
+def holdsWeakly (tr : List (Op × Obs)) : Bool := (gradeOf tr).rank ≤ 1
 
 end Influx.Spec.C14
